@@ -267,6 +267,26 @@ def r10_4(rep: Report) -> None:
                  'the pssh key set is not looked up from the representation key ids', fn)
 
 
+def r10_5(rep: Report) -> None:
+    """the drm= parser gives every listed system its own location set: no value assigned on
+    only some paths of one list item may be read for the next item"""
+    from ..idioms import partial_defs_in_loops
+    rel = 'dashlive/server/options/drm_options.py'
+    tree = rep.repo.tree(rel)
+    fn = need(find_func(tree, '_drm_selection_from_string'), f'{rel}::_drm_selection_from_string')
+    construct = f'{rel}::_drm_selection_from_string'
+    loops, found = partial_defs_in_loops(fn)
+    if loops == 0:
+        raise AnalysisError('_drm_selection_from_string no longer iterates over the listed systems')
+    if not found:
+        rep.ok('R10.5', construct, 'per-item state', f'{loops} loop(s): every per-item value is assigned on all paths before use')
+    for loop, var, use in found:
+        rep.fail('R10.5', construct, f'per-item state:{var}',
+                 f'`{var}` is assigned on some paths of one list item only and read at line {use.lineno}: '
+                 'an entry without its own value inherits the previous entry\'s (e.g. '
+                 '`drm=playready-cenc,clearkey` gives clearkey the location set {cenc})', use)
+
+
 def analyse(rep: Report) -> None:
     rep.explanation = (
         'Mutation inventory of generate_init_segment (every tree edit between load_fragment and '
@@ -281,7 +301,9 @@ def analyse(rep: Report) -> None:
              floor=9)
     rep.rule('R10.4', 'fragment loaded read-write as the stored window; keys from the representation',
              floor=4)
+    rep.rule('R10.5', 'the drm selection parser keeps no state between listed systems', floor=1)
     r10_1(rep)
     r10_2(rep)
     location_gating(rep, 'R10.3')
     r10_4(rep)
+    r10_5(rep)
